@@ -3,6 +3,7 @@ CONSTANTS
   Budget = 3
   Enabled = {"Name", "UnaryOp", "BinOp", "Await", "Attribute", "Call", "NamedExpr", "Lambda", "IfExp", "Tuple", "Starred", "Compare", "BoolOp", "Yield", "Expression"}
   NameSet = {"a", "b"}
+  ExtraParens = FALSE
   Emit = TRUE
 SPECIFICATION Spec
 INVARIANTS EmitOK
